@@ -175,6 +175,30 @@ func (s *PathState) IsNil(m func(ssa.Value) bool) (isNil, known bool) {
 	return false, false
 }
 
+// NilFact: is v nil on this path? v is resolved through phis, tracked cells and the returns of callees that were explored
+// inline (a local `fail()` helper, an extracted constructor); constants, freshly built values and built errors answer
+// for themselves, otherwise the path's literals about the value (or about the call that produced it) decide.
+func (s *PathState) NilFact(v ssa.Value) (isNil, known bool) {
+	for i := 0; i < 8; i++ {
+		v = s.Resolve(v)
+		r := s.Returned(v)
+		if r == nil || r == v {
+			break
+		}
+		if n, k := s.IsNil(func(x ssa.Value) bool { return x == v }); k {
+			return n, true
+		}
+		v = r
+	}
+	if IsNilConst(v) {
+		return true, true
+	}
+	if neverNil(v) {
+		return false, true
+	}
+	return s.IsNil(func(x ssa.Value) bool { return x == v })
+}
+
 // Truth: outcome of a boolean atom matched by m on this path.
 func (s *PathState) Truth(m func(ssa.Value) bool) (val, known bool) {
 	for _, l := range s.Lits {
@@ -617,7 +641,13 @@ func (q *PathQuery) assume(st *PathState, t *ssa.If, outcome bool) (*PathState, 
 				if eq != lit.Val {
 					return nil, false
 				}
-				return st, true
+				_, cx := lit.X.(*ssa.Const)
+				_, cy := lit.Y.(*ssa.Const)
+				if cx && cy {
+					return st, true
+				}
+				// a value that is never nil was tested against nil: the outcome is fixed, but the literal is still
+				// recorded — rules ask whether a result was examined on the path
 			}
 		}
 	}
